@@ -883,6 +883,18 @@ class SVEval:
                     else:
                         outs.append((c, ("call", f, [v]), False, en))
                 return outs[:MAX_PATHS]
+        # a closure held in a variable (a parameter of a spliced-in higher-order helper: `transform(text)`) is applied to its arguments
+        if e["func"].get("k") == "path" and len(e["func"]["segs"]) == 1 and isinstance(env.get(f), tuple) and env[f][0] == "closure" and self._depth < 8:
+            clo = env[f][1]
+            cenv = dict(env)
+            params = [b for p in clo.get("params", []) for b in pat_bindings(p)]
+            for nm, a in zip(params, e["args"]):
+                cenv[nm] = self.first(a, o)
+            outs = []
+            for (c, v, r, en) in self.eval(clo["body"], Outcome(o.conds, cenv)):
+                outs.append((c, v, False, env))
+            if outs:
+                return outs[:MAX_PATHS]
         args = [self.first(a, o) for a in e["args"]]
         import srclib as _sl
         last = f.split("::")[-1]
